@@ -401,10 +401,54 @@ def c06FromLevel (fs : List Field) (attrs : List (String × TfVal)) : List Diag 
       else if a.vkind != vkindOf f.info.tf.valueType || a.vkind == .unknown then some (.readConv f.info.path f.info.tf.valueType)
       else none
 
+/-- is the list / map element `e` of another Go type than the element value type of `vf`? -/
+def wrongElem (vf : FieldInfo) (e : TfVal) : Bool :=
+  e.vkind != vkindOf vf.tf.elemValueType || e.vkind == .unknown
+
+mutual
+/-- the read diagnostics C06 demands, as (kind, path) pairs, at **every** depth CopyFrom visits: one "missing" per
+attribute absent from a visited object, one "conv" per attribute or element of the wrong Go type -/
+def c06Fields (fs : List Field) (attrs : List (String × TfVal)) : List (String × String) :=
+  match fs with
+  | [] => []
+  | f :: rest => c06Field f attrs ++ c06Fields rest attrs
+
+def c06Field (f : Field) (attrs : List (String × TfVal)) : List (String × String) :=
+  match f with
+  | ⟨info, mapVal, msg, sub⟩ =>
+    if info.isPlaceholder then [] else
+    match attrs.lookup info.nameSnake with
+    | none => [("missing", info.path)]
+    | some a =>
+      if info.kind == .custom then [] else
+      if a.vkind != vkindOf info.tf.valueType || a.vkind == .unknown then [("conv", info.path)] else
+      let vf := mapVal.getD info
+      let elemDiags (e : TfVal) : List (String × String) :=
+        if wrongElem vf e then [("conv", info.path)] else
+        match e with
+        | .obj u n as _ => if !u && !n && (info.kind == .objectList || info.kind == .objectMap) then c06Fields sub (as.getD []) else []
+        | _ => []
+      match a with
+      | .obj u n as _ => if !u && !n && info.kind == .object && !isEmptyMsg msg then c06Fields sub (as.getD []) else []
+      | .list u n es _ => if u || n then [] else (es.getD []).flatMap elemDiags
+      | .map u n es _ => if u || n then [] else (es.getD []).flatMap fun (_, e) => elemDiags e
+      | _ => []
+end
+
+def diagKey : Diag → Option (String × String)
+  | .readMissing p => some ("missing", p)
+  | .readConv p _ => some ("conv", p)
+  | _ => none
+
 def c06FromCheck (m : Msg) (tf : TfVal) (panicked : Bool) (diags : List Diag) : Bool :=
   !panicked &&
   match tf with
-  | .obj _ _ as _ => (c06FromLevel m.fields (as.getD [])).all fun d => diags.contains d
+  | .obj _ _ as _ =>
+    ((c06FromLevel m.fields (as.getD [])).all fun d => diags.contains d) &&
+    -- every depth, as sets (the framework drops diagnostics equal to an earlier one)
+    (let expected := c06Fields m.fields (as.getD [])
+     let actual := diags.filterMap diagKey
+     expected.all (fun d => actual.contains d) && actual.all (fun d => expected.contains d))
   | _ => false
 
 def c06ToLevel (fs : List Field) (atys : List (String × TfTy)) : List Diag :=
